@@ -264,6 +264,88 @@ func mechanismSkeleton(kind, typ, keyPath string) m {
 	return nil
 }
 
+type optionVariant struct {
+	kind, typ, name string
+	conf            m
+	replace         bool // conf is the whole configuration (not laid over the skeleton)
+}
+
+// optionVariants: settings every loader documents as optional, alone and as partial objects.
+func optionVariants(keyPath string) []optionVariant {
+	ep := func(extra m) m { return deepMerge(extra, m{"url": "http://cx.local/ctx"}) }
+
+	return []optionVariant{
+		{kind: "authenticators", typ: "anonymous", name: "subject", conf: m{"subject": "anon"}},
+		{kind: "authenticators", typ: "basic_auth", name: "allow_fallback_on_error", conf: m{"allow_fallback_on_error": true}},
+		{kind: "authenticators", typ: "jwt", name: "subject-attributes-only", conf: m{"subject": m{"attributes": "@this"}}},
+		{kind: "authenticators", typ: "jwt", name: "subject-id-only", conf: m{"subject": m{"id": "sub"}}},
+		{kind: "authenticators", typ: "jwt", name: "jwt_source", conf: m{"jwt_source": []any{m{"header": "Authorization", "scheme": "Bearer"}}}},
+		{kind: "authenticators", typ: "jwt", name: "cache_ttl", conf: m{"cache_ttl": "5m"}},
+		{kind: "authenticators", typ: "jwt", name: "allow_fallback_on_error", conf: m{"allow_fallback_on_error": true}},
+		{kind: "authenticators", typ: "jwt", name: "validate_jwk", conf: m{"validate_jwk": false}},
+		{kind: "authenticators", typ: "jwt", name: "assertions-audience-only", conf: m{"assertions": m{"audience": []any{"aud"}, "issuers": []any{"iss"}}}},
+		{kind: "authenticators", typ: "jwt", name: "metadata_endpoint", replace: true,
+			conf: m{"metadata_endpoint": m{"url": idpURL + "/.well-known/openid-configuration"}}},
+		{kind: "authenticators", typ: "oauth2_introspection", name: "subject-attributes-only", conf: m{"subject": m{"attributes": "@this"}}},
+		{kind: "authenticators", typ: "oauth2_introspection", name: "token_source", conf: m{"token_source": []any{m{"header": "X-Tok"}}}},
+		{kind: "authenticators", typ: "oauth2_introspection", name: "cache_ttl", conf: m{"cache_ttl": "5m"}},
+		{kind: "authenticators", typ: "oauth2_introspection", name: "metadata_endpoint", replace: true,
+			conf: m{"metadata_endpoint": m{"url": idpURL + "/.well-known/oauth-authorization-server"}}},
+		{kind: "authenticators", typ: "generic", name: "subject-with-attributes", conf: m{"subject": m{"id": "sub", "attributes": "@this"}}},
+		{kind: "authenticators", typ: "generic", name: "session_lifespan-partial", conf: m{"session_lifespan": m{"not_after": "exp"}}},
+		{kind: "authenticators", typ: "generic", name: "session_lifespan-full", conf: m{"session_lifespan": m{
+			"active": "active", "issued_at": "iat", "not_before": "nbf", "not_after": "exp", "time_format": "2006-01-02", "validity_leeway": "10s",
+		}}},
+		{kind: "authenticators", typ: "generic", name: "forward_headers", conf: m{"forward_headers": []any{"X-A"}}},
+		{kind: "authenticators", typ: "generic", name: "forward_cookies", conf: m{"forward_cookies": []any{"c"}}},
+		{kind: "authenticators", typ: "generic", name: "payload", conf: m{"payload": "p"}},
+		{kind: "authenticators", typ: "generic", name: "cache_ttl", conf: m{"cache_ttl": "5m"}},
+		{kind: "authorizers", typ: "cel", name: "expression-message", replace: true,
+			conf: m{"expressions": []any{m{"expression": "1 == 1", "message": "no"}}}},
+		{kind: "authorizers", typ: "cel", name: "values", conf: m{"values": m{"a": "b"}}},
+		{kind: "authorizers", typ: "remote", name: "expressions", conf: m{"expressions": []any{m{"expression": "1 == 1"}}}},
+		{kind: "authorizers", typ: "remote", name: "values", conf: m{"values": m{"a": "b"}}},
+		{kind: "authorizers", typ: "remote", name: "forward_response_headers_to_upstream",
+			conf: m{"forward_response_headers_to_upstream": []any{"X-A"}}},
+		{kind: "authorizers", typ: "remote", name: "cache_ttl", conf: m{"cache_ttl": "5m"}},
+		{kind: "authorizers", typ: "remote", name: "endpoint-method-headers", replace: true,
+			conf: m{"endpoint": ep(m{"method": "POST", "headers": m{"x-a": "b"}}), "payload": "p"}},
+		{kind: "contextualizers", typ: "generic", name: "forward_headers", conf: m{"forward_headers": []any{"X-A"}}},
+		{kind: "contextualizers", typ: "generic", name: "forward_cookies", conf: m{"forward_cookies": []any{"c"}}},
+		{kind: "contextualizers", typ: "generic", name: "payload", conf: m{"payload": "p"}},
+		{kind: "contextualizers", typ: "generic", name: "cache_ttl", conf: m{"cache_ttl": "5m"}},
+		{kind: "contextualizers", typ: "generic", name: "continue_pipeline_on_error", conf: m{"continue_pipeline_on_error": true}},
+		{kind: "contextualizers", typ: "generic", name: "values", conf: m{"values": m{"a": "b"}}},
+		{kind: "contextualizers", typ: "generic", name: "endpoint-retry", replace: true,
+			conf: m{"endpoint": ep(m{"retry": m{"give_up_after": "1s", "max_delay": "100ms"}})}},
+		{kind: "contextualizers", typ: "generic", name: "endpoint-retry-partial", replace: true,
+			conf: m{"endpoint": ep(m{"retry": m{"give_up_after": "1s"}})}},
+		{kind: "contextualizers", typ: "generic", name: "endpoint-http_cache", replace: true,
+			conf: m{"endpoint": ep(m{"http_cache": m{"enabled": true, "default_ttl": "5m"}})}},
+		{kind: "contextualizers", typ: "generic", name: "endpoint-http_cache-partial", replace: true,
+			conf: m{"endpoint": ep(m{"http_cache": m{"enabled": true}})}},
+		{kind: "contextualizers", typ: "generic", name: "endpoint-auth-api_key-query", replace: true,
+			conf: m{"endpoint": ep(m{"auth": m{"type": "api_key", "config": m{"in": "query", "name": "k", "value": "v"}}})}},
+		{kind: "contextualizers", typ: "generic", name: "endpoint-auth-oauth2-scopes", replace: true,
+			conf: m{"endpoint": ep(m{"auth": m{"type": "oauth2_client_credentials", "config": m{
+				"token_url": idpURL + "/token", "client_id": "client", "client_secret": "secret", "scopes": []any{"a", "b"}, "cache_ttl": "5m",
+			}}})}},
+		{kind: "finalizers", typ: "jwt", name: "ttl", conf: m{"ttl": "5m"}},
+		{kind: "finalizers", typ: "jwt", name: "claims", conf: m{"claims": `{"a":"b"}`}},
+		{kind: "finalizers", typ: "jwt", name: "header-name-only", conf: m{"header": m{"name": "X-T"}}},
+		{kind: "finalizers", typ: "jwt", name: "header-name-scheme", conf: m{"header": m{"name": "X-T", "scheme": "S"}}},
+		{kind: "finalizers", typ: "jwt", name: "signer-name", conf: m{"signer": m{"name": "me", "key_store": m{"path": keyPath}}}},
+		{kind: "finalizers", typ: "jwt", name: "values", conf: m{"values": m{"a": "b"}}},
+		{kind: "finalizers", typ: "oauth2_client_credentials", name: "header-name-only", conf: m{"header": m{"name": "X-T"}}},
+		{kind: "finalizers", typ: "oauth2_client_credentials", name: "header-name-scheme", conf: m{"header": m{"name": "X-T", "scheme": "S"}}},
+		{kind: "finalizers", typ: "oauth2_client_credentials", name: "scopes", conf: m{"scopes": []any{"a", "b"}}},
+		{kind: "finalizers", typ: "oauth2_client_credentials", name: "cache_ttl", conf: m{"cache_ttl": "5m"}},
+		{kind: "finalizers", typ: "oauth2_client_credentials", name: "auth_method", conf: m{"auth_method": "request_body"}},
+		{kind: "error_handlers", typ: "www_authenticate", name: "no-config", replace: true},
+		{kind: "error_handlers", typ: "redirect", name: "code", conf: m{"code": 302}},
+	}
+}
+
 func authSkeleton(strategy, keyPath string) m {
 	switch strategy {
 	case "basic_auth":
@@ -410,6 +492,27 @@ func Universe(dir string) ([]Item, error) {
 				Effective: mechanismEffective(kind, "item"),
 			})
 		}
+	}
+
+	// --- optional settings of the mechanisms: what the loader treats as optional (defaults, partial
+	// objects) must be optional for the schema too, and the other way round
+	for _, o := range optionVariants(keyPath) {
+		mech := m{"id": "item", "type": o.typ}
+
+		cfg := o.conf
+		if sk := mechanismSkeleton(o.kind, o.typ, keyPath); sk != nil && !o.replace {
+			cfg = deepMerge(o.conf, sk)
+		}
+
+		if cfg != nil {
+			mech["config"] = cfg
+		}
+
+		items = append(items, Item{
+			Name: "option:" + strings.TrimSuffix(o.kind, "s") + ":" + o.typ + ":" + o.name, Category: "mechanism-option",
+			Source: "both", Config: m{"mechanisms": m{o.kind: []any{mech}}}, FileExtra: mechanismFileExtra,
+			Effective: mechanismEffective(o.kind, "item"),
+		})
 	}
 
 	// --- the catalogue with only one of the two lists the schema requires
